@@ -154,6 +154,10 @@ type Chan struct {
 	// Cover is the union of committed domains (sorted, merged when overlapping or equal;
 	// adjacent domains are kept merged too since only coverage matters for legality).
 	Cover []Interval
+	// SnapGaps (index channels): after a delete ending at b inside stored data, the engine
+	// starts the kept part at the next remaining sample s > b; [b,s) is then covered by the
+	// model's (superset) coverage but not by the engine's index.
+	SnapGaps []Interval
 }
 
 // Model is the committed state of all channels.
@@ -189,7 +193,7 @@ func (m *Model) Remove(key uint32) {
 func (m *Model) Clone() *Model {
 	c := &Model{Chans: map[uint32]*Chan{}, Order: append([]uint32(nil), m.Order...)}
 	for k, ch := range m.Chans {
-		n := &Chan{Spec: ch.Spec, Samples: make(map[int64][]byte, len(ch.Samples)), Cover: append([]Interval(nil), ch.Cover...)}
+		n := &Chan{Spec: ch.Spec, Samples: make(map[int64][]byte, len(ch.Samples)), Cover: append([]Interval(nil), ch.Cover...), SnapGaps: append([]Interval(nil), ch.SnapGaps...)}
 		for t, v := range ch.Samples {
 			n.Samples[t] = v
 		}
@@ -293,6 +297,21 @@ func (c *Chan) CutCover(a, b int64) {
 
 // Delete removes samples with timestamp in [a,b).
 func (c *Chan) Delete(a, b int64) (removed int) {
+	if c.Spec.IsIndex && b > a {
+		for _, iv := range c.Cover {
+			if b > iv.S && b < iv.E {
+				next := int64(-1)
+				for t := range c.Samples {
+					if t >= b && t < iv.E && (next < 0 || t < next) {
+						next = t
+					}
+				}
+				if next > b {
+					c.SnapGaps = append(c.SnapGaps, Interval{b, next})
+				}
+			}
+		}
+	}
 	c.CutCover(a, b)
 	for t := range c.Samples {
 		if t >= a && t < b {
